@@ -841,7 +841,10 @@ def seqNR (q : Quirks) (f : F) : List Cls → List Tree → St → MRes × St
 def main0Match (env : Env) (f : F) (fuel : Nat) (cfg : Cfg) (scope : Name) (st : St) : MRes × St :=
   match blockMatch env f fuel cfg (st.enter scope) with
   | (.raise e, s2) =>
-    if env.tbl.quirks.main0Finally then
+    if e == .outOfFuel then
+      -- the model itself ran out of fuel: stop at once (the scope stays open)
+      (.raise e, s2.ev (.ghost .main0Leak))
+    else if env.tbl.quirks.main0Finally then
       match s2.exit with
       | (false, s3) => (.raise .other, s3)
       | (true, s3) =>
